@@ -62,6 +62,20 @@ CFG = {
         "types, AEAD, re-key to a raw key and to a password, open with the right and a wrong password) whose every record (target, message, "
         "module, file) is scanned for the pass keys, passwords, record value, tag value and key material in raw / hex / base64 / base58 / "
         "Debug-list form, flush through log::logger(), askar_clear_custom_logger, then no further record.  "
+        "Coverage round 2 (ids 364..): 4 fault cases - a populated file store whose backend is made to FAIL inside accepted calls by "
+        "RAISE(ABORT) triggers / renamed tables installed out of band (raw SQLite connection) on the store's file and on the twin's, one fault "
+        "at a time in random order: BEFORE INSERT / DELETE / UPDATE ON profiles (create_profile, remove_profile, rekey), INSERT+UPDATE ON "
+        "config (set_default_profile), INSERT / DELETE ON items (insert, remove, remove_all; a statement that touches no row is not hit), "
+        "profiles / config renamed away (list_profiles, get / set_default_profile): the entry point returns Success, the callback delivers "
+        "Backend once, askar_get_current_error reports Backend, reads show the store unchanged, the old key still opens after a failed "
+        "re-key, and the same call succeeds once the fault is removed; final dump against the twin.  1 NULL-argument case (key name of "
+        "update_key / remove_key, callback of get_profile_name / list_profiles, store_close of unknown handles without callback, every log "
+        "level -1..6, each of the five arguments of askar_migrate_indy_sdk).  1 Busy case whose close has no callback.  1 logger child at "
+        "level Warn with askar_clear_custom_logger before any logger is installed.  1 askar_terminate case (child process): four accepted "
+        "calls are pending (an insert behind another transaction's write lock, a 1 MiB fetch_all, a kdf provision, get_profile_name) when the "
+        "runtime is shut down - each callback fires exactly once (own result or Unexpected); afterwards ten asynchronous entry points "
+        "return Success with ONE synchronous Unexpected callback (the drop guard), a close without callback invokes nothing, decode errors "
+        "stay Input, synchronous entry points still work, a second terminate is a no-op, exit status 0.  "
         "non-trivial: >= 8 ops, >= 1 callback that delivered data or a handle, and >= 1 op that ended in an error code (bad handle, "
         "malformed argument or library error).  distinct = hash of the case"
     ),
@@ -98,8 +112,10 @@ CFG = {
         "regenerated by tools/extract.py",
         "raw-key validity (base58, 32 bytes) is decided in the model by membership in the generator's table of three valid keys; key material, "
         "JWK and signatures are not modelled here (C11/C13/C14): key ops are compared with the Rust API by the oracle, the model gives the status",
-        "entry points NOT called by this check: askar_terminate (shuts the runtime down for the rest of the process); error code Custom is "
-        "not producible through the C API of this build (no code path constructs ErrorKind::Custom)",
+        "every entry point of include/libaries_askar.h is called; error code Custom is not producible through the C API of this build: "
+        "ErrorKind::Custom is constructed only in askar-crypto/src/alg/p256_hardware.rs (feature mobile_secure_element, secure-enclave "
+        "errors), which is not compiled here",
+        "which of the calls pending at askar_terminate complete and which are dropped is scheduling: only 'exactly once' is judged for them",
     ],
     "trusted_base": [
         "harness/src/c19/ffi.rs: extern \"C\" declarations (transcribed from src/ffi/*.rs / include/libaries_askar.h) and the callback recorder",
